@@ -87,7 +87,11 @@ MANIFEST = {
             "no_total of the Total theorems excludes data rows WITHOUT -opCat/-NA token (the code files them under a "
             "category literally named 'Total', counting them twice in the Total row: Example "
             "C11_uncategorised_row_counts_twice). The category of a slice is overwritten later by "
-            "tb_refinement_lightweight, so end to end it is observable only through the csv.",
+            "tb_refinement_lightweight, so end to end it is observable only through the csv. The ORDER of the exported "
+            "'PT Active' samples is outside the model (the end-to-end tie compares them as a multiset): that the "
+            "samples of a rank, read in file order as one counter track (last sample at a timestamp wins), show "
+            "100*pt_active while a counted kernel runs and 0 otherwise is checked by the oracle only (oracle_track), "
+            "on the shared scenarios and on generated kernel chains whose Exec slices are exactly back to back.",
     "technique": "Coq proof (induction over the event sequence with a key-set invariant on the per-rank tables, "
                  "setoid reasoning on Q triples, permutation/sortedness of the stable insertion sort) + vm_compute "
                  "correspondence against the real classes and Acelyzer end to end",
@@ -1229,7 +1233,7 @@ def run(ctx):
             small = {k: small[k] for k in ("items", "core", "soc", "stats", "events", "offgrid") if k in small}
             out_fail.append(failure_record("direct", small, g))
         else:
-            c, f = shrink_e2e(c, f, work + "e", budget=ctx.pick(12.0, 40.0))
+            c, f = shrink_e2e(c, f, work + "e", budget=ctx.pick(8.0, 40.0))
             out_fail.append(failure_record("e2e", {k: c[k] for k in ("files", "freq", "core", "opts", "items",
                                                                       "text")}, f))
     shutil.rmtree(work, ignore_errors=True)
